@@ -215,7 +215,7 @@ Proof. exact sarif_bytes_roundtrip. Qed.
 Print Assumptions C06_sarif_bytes_roundtrip.
 
 Theorem C06_json_dumps_arguments :
-  json_dumps_ensure_ascii = true /\ json_dumps_sort_keys = false /\ json_dumps_item_sep = ","
+  json_dumps_uniform = true /\ json_dumps_ensure_ascii = true /\ json_dumps_sort_keys = false /\ json_dumps_item_sep = ","
   /\ json_dumps_key_sep = ": " /\ (1 <= json_dumps_indent)%nat.
 Proof. exact json_ser_facts. Qed.
 Print Assumptions C06_json_dumps_arguments.
